@@ -59,6 +59,7 @@ def _regeneration(ctx, r3):
     ocls = repo.cls("pyxform.question:Option")
     icls = repo.cls("pyxform.question:Itemset")
     bx = mq.methods["build_xml"]
+    ris = scls.methods["_redirect_is_search_itext"]
     for app in ("search('fruits')", "minimal"):
         opts = tuple(_mk(ctx, ocls, f"o{i}", label=f"L{i}", media=None) for i in range(2))
         iset = Obj(icls, {"name": "lst", "options": opts, "requires_itext": False, "used_by_search": False}, name="itemset")
@@ -75,8 +76,9 @@ def _regeneration(ctx, r3):
             it = ctx.interp("C14.R3", hooks=hooks)
             it.reset([])
             try:
+                red = it.call_function(ris, [sv], {"element": el}, None, ris.node)  # as _setup_translations does for every select
                 it.call_function(bx, [el], {"survey": sv}, None, bx.node)
-                runs.append(repr([(c.tag, sorted((k, str(v)) for k, v in c.attrs.items()), [g.tag for g in c.children if isinstance(g, NodeVal)]) for c in CTRL.children if isinstance(c, NodeVal)]))
+                runs.append(repr(red) + repr([(c.tag, sorted((k, str(v)) for k, v in c.attrs.items()), [g.tag for g in c.children if isinstance(g, NodeVal)]) for c in CTRL.children if isinstance(c, NodeVal)]))
             except Raised as e:
                 runs.append(f"raises {e.exc_name}{e.exc_args}")
         r3.check(len(set(runs)) == 1 and not runs[0].startswith("raises"), f"regeneration[select, appearance={app!r}]",
